@@ -9,12 +9,33 @@ COMMON_TB = [
 
 PROPS = {
     "C11": {
-        "proof_modules": [],
-        "theorems": [],
+        "proof_modules": ["GrolProofs.Props.C11"],
+        "theorems": ["Grol.Map.C11.run_refines", "Grol.Map.C11.observations", "Grol.Map.C11.history_independent", "Grol.Map.C11.get_set",
+                     "Grol.Map.C11.get_delete", "Grol.Map.C11.set_comm", "Grol.Map.C11.grol", "Grol.Map.bsearch_eq", "Grol.Map.smallGet_eq",
+                     "Grol.Map.specGet_spec", "Grol.Map.set_spec", "Grol.Map.delete_spec", "Grol.Map.append_spec", "Grol.Map.literal_spec",
+                     "Grol.Map.rest_spec", "Grol.Map.range_spec", "Grol.Map.sorted_insert", "Grol.Map.lookup_insert", "Grol.Map.lookup_erase",
+                     "Grol.Map.insert_comm", "Grol.Obj.cmpD_PW"],
         "suites": ["mapops"],
-        "rule": "tbd",
-        "trusted_base": COMMON_TB,
-        "assumptions": [],
+        "rule": "mapops suite: every case is a whole history (literal construction, m[k]=v, del(m[k]), m+{..}, m=rest(m), m=m[lo:hi]) run "
+                "twice, through the object.Map API (mode A) and as grol source statements (mode S); observation after the last operation: "
+                "len, representation (SmallMap/*BigMap), the stored pairs in order, lookup of every universe key, Inspect(), first(), and == "
+                "both ways against the map rebuilt from the pairs in reverse order. Families: all ordered selections of <=3 of 7 mixed-type "
+                "keys (1, 1.0, 1.5, \"a\", true, nil, [1]; 1 and 1.0 are the same key) and all orders of two 5-key sets as literals; BFS of "
+                "the reachable state space (state = representation + pairs) from 5 start literals over ~45 operations per state (14 sets, 7 "
+                "deletes, rest, up to 11 slices, 7 merges), quick: first 350 states, thorough: the whole space (fixpoint reached, ~1.9k states); "
+                "40 (quick) / 400 (thorough) seeded random histories of 20-60 operations over a 20-key universe, every prefix a case. "
+                "The statement compares every observation except the representation with the reference finite map (Spec) run on the same "
+                "history. non-trivial = non-empty history.",
+        "trusted_base": COMMON_TB + ["modelled: object/object.go SmallMap/BigMap get, Get, Set, Delete, Len, First, Rest, Range, Append, mapElements, NewMapSize, "
+                                     "slices.BinarySearchFunc, slices.Insert; eval.go evalMapLiteral, the map cases of index assignment, deleteMapEntry, "
+                                     "evalMapInfixExpression (+), evalIndexRangeExpression (in-range bounds); key comparison = the C12 model of Cmp "
+                                     "(cmpD: Cmp itself on data values)",
+                                     "not modelled: Inspect() of arbitrary values (the driver has a formatter for nil, booleans, ints, printable strings, "
+                                     "arrays, maps and floats that are multiples of 1/8; otherwise the printed form is taken from the implementation), "
+                                     "aliasing of *BigMap storage between variables (single-owner histories only; C06), out-of-range slice bounds (C07), "
+                                     "keys that are not data values (RETURN/MACRO objects)"],
+        "assumptions": ["single-owner use of map values (each history owns its map)"],
+        "exhaustive_note": "thorough tier: BFS reaches the fixpoint of the 7-key x 2-value state space",
     },
     "C12": {
         "proof_modules": ["GrolProofs.Props.C12"],
